@@ -9,22 +9,33 @@
 //!                                    (kind 0 input / 1 output: (kind idx pos value) on a narrow
 //!                                    integer field, kind 2: policy bits), then real from_proto:
 //!                                    `(1 tx)` / `(0)` error / `(-777)` panic
+//! (3 height ((receipts of tx 0) ..))  a whole block (one script transaction per receipt list, outbox
+//!                                    message ids derived per transaction as the producer does): real
+//!                                    convert_block -> decode -> fuel_block_from_protobuf, compared with
+//!                                    the original block: `(ok block_eq receipts_eq count count' root_eq id_eq)`
 use fuel_core_block_aggregator_api::{
-    blocks::old_block_source::convertor_adapter::{
-        fuel_to_proto_conversions::proto_tx_from_tx, proto_to_fuel_conversions::tx_from_proto_tx,
+    blocks::old_block_source::{
+        convertor_adapter::{
+            fuel_to_proto_conversions::proto_tx_from_tx,
+            proto_to_fuel_conversions::{fuel_block_from_protobuf, tx_from_proto_tx},
+            ProtobufBlockConverter,
+        },
+        BlockConverter,
     },
     db::{storage_db::StorageDB, table::Column, BlocksStorage},
     protobuf_types::{
         input::Variant as PIn, output::Variant as POut, transaction::Variant as PTx,
-        Input as ProtoInput, Output as ProtoOutput, Transaction as ProtoTransaction,
+        Block as ProtoBlock, Input as ProtoInput, Output as ProtoOutput, Transaction as ProtoTransaction,
     },
 };
 use fuel_core_storage::{structured_storage::test::InMemoryStorage, transactional::IntoTransaction};
 use fuel_core_types::{
+    blockchain::{block::Block as FuelBlock, header::PartialBlockHeader},
+    fuel_asm::{PanicInstruction, PanicReason},
     fuel_tx::{
         field::{Inputs, Outputs, Policies as PoliciesField},
         policies::{Policies, PolicyType},
-        Input, Output, Transaction, TxPointer, UtxoId,
+        Input, MessageId, Output, Receipt, ScriptExecutionResult, Transaction, TxPointer, UtxoId,
     },
     fuel_types::{Address, AssetId, BlockHeight, Bytes32, ContractId, Nonce},
 };
@@ -455,8 +466,92 @@ fn run(prop: &str, input: &T) -> T {
         0 => run_store(&input),
         1 => run_roundtrip(&input),
         2 => run_override(&input),
+        3 => run_block(&input),
         k => panic!("bad form {k}"),
     })
+}
+
+// ---------------------------------------------------------------- whole blocks
+
+fn receipt_of(t: &T, tx: usize, pos: usize) -> Receipt {
+    let r = t.as_l();
+    let cid = ContractId::from([(tx as u8).wrapping_mul(16).wrapping_add(pos as u8); 32]);
+    match r[0].as_i() {
+        0 => Receipt::ret(cid, 7, 4, 8),
+        1 => Receipt::revert(cid, 42, 4, 8),
+        2 => Receipt::panic(cid, PanicInstruction::error(PanicReason::OutOfGas, 0), 4, 8),
+        3 => {
+            let seed = r[1].as_u64() as u8;
+            let data = vec![seed; 8];
+            let digest = Output::message_digest(&data);
+            Receipt::message_out_with_len(
+                Address::from([seed; 32]),
+                Address::from([seed.wrapping_add(1); 32]),
+                u64::from(seed),
+                Nonce::from([seed.wrapping_add(2); 32]),
+                data.len() as u64,
+                digest,
+                Some(data),
+            )
+        }
+        4 => Receipt::script_result(ScriptExecutionResult::Success, 10 + pos as u64),
+        k => panic!("bad receipt kind {k}"),
+    }
+}
+
+/// the outbox message ids as the block producer derives them: per transaction, the ids of
+/// its MessageOut receipts unless that very transaction reverted or panicked
+fn producer_message_ids(receipts: &[Vec<Receipt>]) -> Vec<MessageId> {
+    let mut ids = vec![];
+    for rs in receipts {
+        let reverted = rs.iter().any(|r| matches!(r, Receipt::Revert { .. } | Receipt::Panic { .. }));
+        if !reverted {
+            ids.extend(rs.iter().filter_map(|r| r.message_id()));
+        }
+    }
+    ids
+}
+
+fn run_block(input: &T) -> T {
+    let f = input.as_l();
+    let height = f[1].as_u32();
+    let receipts: Vec<Vec<Receipt>> = f[2]
+        .as_l()
+        .iter()
+        .enumerate()
+        .map(|(tx, rs)| rs.as_l().iter().enumerate().map(|(pos, r)| receipt_of(r, tx, pos)).collect())
+        .collect();
+    let txs: Vec<Transaction> = (0..receipts.len())
+        .map(|i| {
+            Transaction::Script(Transaction::script(
+                1000 + i as u64,
+                vec![0x24, 0x00, 0x00, 0x00],
+                vec![i as u8],
+                Policies::new().with_max_fee(1000 + i as u64),
+                vec![],
+                vec![],
+                vec![],
+            ))
+        })
+        .collect();
+    let mut header = PartialBlockHeader::default();
+    header.consensus.height = BlockHeight::from(height);
+    let ids = producer_message_ids(&receipts);
+    let block = FuelBlock::new(header, txs, &ids, Bytes32::from([7u8; 32])).expect("block");
+    let bytes = ProtobufBlockConverter.convert_block(&block, &receipts).expect("convert_block");
+    let proto = <ProtoBlock as prost::Message>::decode(&*bytes).expect("decode");
+    match fuel_block_from_protobuf(proto) {
+        Err(_) => T::l(vec![T::b(false)]),
+        Ok((b2, r2)) => T::l(vec![
+            T::b(true),
+            T::b(b2 == block),
+            T::b(r2 == receipts),
+            T::n(block.header().message_receipt_count()),
+            T::n(b2.header().message_receipt_count()),
+            T::b(b2.header().message_outbox_root() == block.header().message_outbox_root()),
+            T::b(b2.header().id() == block.header().id()),
+        ]),
+    }
 }
 
 // ---------------------------------------------------------------- generators
@@ -591,6 +686,54 @@ fn gen(prop: &str, rng: &mut Rng, n: u64, tier: &str) -> Vec<T> {
         let o = gen_output(rng, 1);
         let ovr = T::l(vec![T::l(vec![T::i(1), T::n(0u64), T::n(0u64), T::n(v)])]);
         cases.push(T::l(vec![T::i(2), gen_policies(rng), T::l(vec![]), T::l(vec![o]), ovr]));
+    }
+    // (3) whole blocks: every assignment of one of 6 receipt shapes to each of 2 (thorough 3)
+    //     transactions (none / return / revert / panic / message / message+revert), plus random
+    //     blocks of 0..5 transactions with 0..4 receipts each
+    let shapes: [&[(u64, u64)]; 6] = [&[], &[(0, 0)], &[(1, 0)], &[(2, 0)], &[(3, 1)], &[(3, 1), (1, 0)]];
+    let rc = |k: u64, seed: u64| if k == 3 { T::l(vec![T::i(3), T::n(seed)]) } else { T::l(vec![T::n(k)]) };
+    let ntx = if thorough { 3 } else { 2 };
+    let mut idx = vec![0usize; ntx];
+    loop {
+        let txs: Vec<T> = idx
+            .iter()
+            .enumerate()
+            .map(|(t, &sh)| {
+                let mut rs: Vec<T> = shapes[sh].iter().map(|&(k, s)| rc(k, s + 10 * t as u64)).collect();
+                rs.push(rc(4, 0));
+                T::l(rs)
+            })
+            .collect();
+        cases.push(T::l(vec![T::i(3), T::n(5u64), T::l(txs)]));
+        let mut i = 0;
+        while i < ntx {
+            idx[i] += 1;
+            if idx[i] < shapes.len() {
+                break;
+            }
+            idx[i] = 0;
+            i += 1;
+        }
+        if i == ntx {
+            break;
+        }
+    }
+    for _ in 0..(n / 6).max(20) {
+        let ntx = rng.below(6);
+        let txs: Vec<T> = (0..ntx)
+            .map(|_| {
+                let nr = rng.below(5);
+                T::l((0..nr)
+                    .map(|_| {
+                        let k = *rng.pick(&[0u64, 1, 2, 3, 3, 3, 4]);
+                        let seed = rng.below(200);
+                        rc(k, seed)
+                    })
+                    .collect())
+            })
+            .collect();
+        let h = *rng.pick(&[0u64, 1, 5, u32::MAX as u64]);
+        cases.push(T::l(vec![T::i(3), T::n(h), T::l(txs)]));
     }
     for bits in [0u64, 1, 21, 63, 64, 65, 128, u32::MAX as u64] {
         let ovr = T::l(vec![T::l(vec![T::i(2), T::n(0u64), T::n(0u64), T::n(bits)])]);
